@@ -29,6 +29,19 @@ void __CPROVER_assert(_Bool, const char*);
    ? ((__CPROVER_ssize_t)__CPROVER_POINTER_OFFSET((const void*)(a)) op (__CPROVER_ssize_t)__CPROVER_POINTER_OFFSET((const void*)(b))) \
    : ((uintptr_t)(a) op (uintptr_t)(b)))
 #endif
+/* memcpy/memmove/memset with a length that is not a compile-time constant: CBMC's library model turns them into operations on byte arrays of
+ * symbolic size over the whole enclosing object; an explicit byte loop (bounded by --unwind, with unwinding assertion) stays element-wise */
+#ifdef VX_NATIVE
+#define __vx_memcpy memcpy
+#define __vx_memmove memmove
+#define __vx_memset memset
+#else
+static inline void __vx_memcpy(void* d, const void* s, uint64_t n) { for (uint64_t i = 0; i < n; i++) ((uint8_t*)d)[i] = ((const uint8_t*)s)[i]; }
+static inline void __vx_memmove(void* d, const void* s, uint64_t n) {
+  if ((uintptr_t)d <= (uintptr_t)s || !__CPROVER_same_object(d, s)) { for (uint64_t i = 0; i < n; i++) ((uint8_t*)d)[i] = ((const uint8_t*)s)[i]; }
+  else { for (uint64_t i = n; i > 0; i--) ((uint8_t*)d)[i - 1] = ((const uint8_t*)s)[i - 1]; } }
+static inline void __vx_memset(void* d, int c, uint64_t n) { for (uint64_t i = 0; i < n; i++) ((uint8_t*)d)[i] = (uint8_t)c; }
+#endif
 /* exception state: one exception in flight, a small stack of caught ones */
 static int __vx_pending;
 static void* __vx_exc_obj; static void* __vx_exc_type; static void* __vx_exc_dtor;
